@@ -40,7 +40,7 @@ var unitTrusted = []string{"go/ssa", "the seed table of checker/units.go (fields
 
 func init() {
 	register("C05", &propInfo{
-		Explanation: "UNIT: units/kinds dataflow over the transform code (transform.go, matrix.go, metaball.go, squeeze.go, render3d/transform.go; 2D and 3D): directions, normals and ray parameters are not pushed through point/length maps (Transform.Apply on a vector without the image-difference idiom; DistTransform.ApplyDistance on anything but a length); sums, comparisons, distances and stores into seeded fields are dimensionally consistent; all returns of a function agree on their dimension. ABSORB: no transformed bound is computed as x.Max(y.Min(x)). FRAME: in every transformed wrapper (methods of structs holding a Transform, closures capturing one) world-frame query values reach the wrapped object only through the inverse transform and forward maps are applied only to object-frame values.",
+		Explanation: "UNIT: units/kinds dataflow over the transform code (transform.go, matrix.go, metaball.go, squeeze.go, render3d/transform.go; 2D and 3D): directions, normals and ray parameters are not pushed through point/length maps (Transform.Apply on a vector without the image-difference idiom; DistTransform.ApplyDistance on anything but a length); sums, comparisons, distances and stores into seeded fields are dimensionally consistent; all returns of a function agree on their dimension. ABSORB: no transformed bound is computed as x.Max(y.Min(x)). FIRSTITER: the first-corner initialisation of the bounds enumeration tests every loop variable of its nest. FRAME: in every transformed wrapper (methods of structs holding a Transform, closures capturing one) world-frame query values reach the wrapped object only through the inverse transform and forward maps are applied only to object-frame values.",
 		Trusted:     unitTrusted,
 		Assumptions: []string{"model coordinates are lengths; a Transform value obtained from X.Inverse() is the inverse of X"},
 		Fixtures:    []string{"u", "g"},
@@ -52,8 +52,13 @@ func init() {
 			c.floor("FRAME", 30)
 			c.runAbsorption("ABSORB", append(c.libPkgs()[:3:3], c.fixturePkg("g")), c.fileFilter("transform.go", "matrix.go", "squeeze.go"))
 			c.floor("ABSORB", 10)
+			c.runFirstIter("FIRSTITER", c.libPkgs()[:3], nil)
+			c.floor("FIRSTITER", 2)
 		},
 		SelfTest: []Mutation{
+			{Name: "matrix bounds reset on every first-two-axes corner", File: "model3d/transform.go",
+				Old: "if i == 0 && j == 0 && k == 0 {", New: "if i == 0 && j == 0 {",
+				More: [][2]string{{"for k, z := range []float64{min.Z, max.Z} {\n\t\t\t\tc := m.Matrix.MulColumn", "for _, z := range []float64{min.Z, max.Z} {\n\t\t\t\tc := m.Matrix.MulColumn"}}, Rule: "FIRSTITER", Expect: "Matrix3Transform"},
 			{Name: "mirrored scale collapses its bounds", File: "model2d/transform.go",
 				Old: "\treturn min.Min(max), max.Max(min)", New: "\tmin = min.Min(max)\n\tmax = max.Max(min)\n\treturn min, max", Rule: "ABSORB", Expect: "ApplyBounds"},
 			{Name: "direction pushed through the point map (defect F4)", File: "model3d/transform.go",
@@ -73,7 +78,7 @@ func init() {
 		},
 	})
 	register("C06", &propInfo{
-		Explanation: "UNIT over the distance-field code (shapes.go, sdf.go, primitives.go, transform.go; 2D and 3D): no signed-distance or nearest-point routine compares, adds or takes min/max of a squared length with a length or a length with a dimensionless quantity; every function returns the same dimension on all paths. FRAME for the transformed distance fields and colliders used by ColliderToSDF.",
+		Explanation: "UNIT over the distance-field code (shapes.go, sdf.go, primitives.go, transform.go; 2D and 3D): no signed-distance or nearest-point routine compares, adds or takes min/max of a squared length with a length or a length with a dimensionless quantity; every function returns the same dimension on all paths. FRAME for the transformed distance fields and colliders used by ColliderToSDF. MEMO: no distance/containment query stores into its receiver (shapes are plain structs with assignable fields: a cached basis or bound goes stale when a field changes).",
 		Trusted:     unitTrusted,
 		Assumptions: []string{"model coordinates are lengths"},
 		Fixtures:    []string{"u"},
@@ -83,8 +88,17 @@ func init() {
 			c.floor("UNIT", 100)
 			c.runFrames("FRAME", pkgs)
 			c.floor("FRAME", 30)
+			eng := newEffEngine(c)
+			c.runMemo(eng, c.libPkgs()[:2], "MEMO", map[string][]string{
+				"model3d": {"SDF", "PointSDF", "NormalSDF", "FaceSDF", "Solid", "Metaball"},
+				"model2d": {"SDF", "PointSDF", "NormalSDF", "FaceSDF", "Solid", "Metaball"},
+			})
+			c.floor("MEMO", 150)
 		},
 		SelfTest: []Mutation{
+			{Name: "torus memoises its basis in the receiver", File: "model3d/shapes.go",
+				Old: "func (t *Torus) SDF(c Coord3D) float64 {\n", New: "func (t *Torus) SDF(c Coord3D) float64 {\n\tt.once.Do(func() { t.cachedAxis = t.Axis.Normalize() })\n",
+				More: [][2]string{{"type Torus struct {\n", "type Torus struct {\n\tonce       sync.Once\n\tcachedAxis Coord3D\n"}, {"import (\n", "import (\n\t\"sync\"\n"}}, Rule: "MEMO", Expect: "Torus"},
 			{Name: "sphere containment compares a squared distance with the radius", File: "model3d/shapes.go",
 				Old: "return coord.Dist(s.Center) <= s.Radius", New: "return coord.SquaredDist(s.Center) <= s.Radius", Rule: "UNIT", Expect: "Sphere"},
 			{Name: "circle SDF subtracts the squared radius", File: "model2d/shapes.go",
